@@ -106,7 +106,7 @@ def run(cx):
                 detail = 'sorts with the element type\'s own Ord (Record::cmp orders by TTL before RDATA and compares RDATA in non-canonical case)'
             else:
                 # functions reachable from the closures of TBS::new inside the tbs module
-                cl = [g.path for g in prog.find(r'^hickory_proto::dnssec::tbs::TBS::new::\{closure#\d+\}$')]
+                cl = [g.path for g in prog.find(r'^hickory_proto::dnssec::tbs::TBS::new::\{closure[^}]*\}$')]
                 cn = [p for p in cone(prog, cl) if p.startswith('hickory_proto::dnssec::tbs::')]
                 for p in cn:
                     g = prog.fns[p]
@@ -124,7 +124,7 @@ def run(cx):
                         if pre and ok2:
                             keyfn_ok = True
                             detail = f'key function {shorten(p + "(")[:-1]} emits RDATA with canonical_form set'
-                cmpc = [g for g in prog.find(r'^hickory_proto::dnssec::tbs::TBS::new::\{closure#\d+\}$') if any(re.search(r'^<Vec<T;A> as Ord>::cmp\(arg2\.0,arg3\.0\)$|Ord>::cmp\(arg2\.0,arg3\.0\)$', shorten(g.term_call(t, 0))) for bi, c, t in prog.calls_of(g))]
+                cmpc = [g for g in prog.find(r'^hickory_proto::dnssec::tbs::TBS::new::\{closure[^}]*\}$') if any(re.search(r'^<Vec<T;A> as Ord>::cmp\(arg2\.0,arg3\.0\)$|Ord>::cmp\(arg2\.0,arg3\.0\)$', shorten(g.term_call(t, 0))) for bi, c, t in prog.calls_of(g))]
                 if keyfn_ok and not cmpc and 'sort_by(' in s.term:
                     keyfn_ok = False
                     detail = 'comparator does not compare the canonical keys'
@@ -133,7 +133,7 @@ def run(cx):
         ok = len(dd) == 1 and bool(sorts) and 'rdata' in sites and dd[0].bb in cx.reachable_from(f, [sorts[0].bb]) and sites['rdata'].bb in cx.reachable_from(f, [dd[0].bb])
         cx.check('C05.P2', ok, f.path, 'calls', 'duplicates-removed-between-sort-and-emit', f'{len(dd)} dedup calls', dd[0].loc if dd else '')
         if dd:
-            eqc = [g for g in prog.find(r'^hickory_proto::dnssec::tbs::TBS::new::\{closure#\d+\}$') if any(shorten(r.term) in ('eq:Vec(arg2.0,arg3.0)', 'eq:Vec(arg3.0,arg2.0)') for r in cx.true_returns(g))]
+            eqc = [g for g in prog.find(r'^hickory_proto::dnssec::tbs::TBS::new::\{closure[^}]*\}$') if any(shorten(r.term) in ('eq:Vec(arg2.0,arg3.0)', 'eq:Vec(arg3.0,arg2.0)') for r in cx.true_returns(g))]
             cx.check('C05.P2', len(eqc) == 1 or re.match(r'^Vec::dedup\(', dd[0].term) is not None, f.path, dd[0].key(), 'dedup-on-the-sort-key', dd[0].term[:120], dd[0].loc)
     # ---------------------------------------------------------------- G1 determine_name
     d = cx.fn('C05.G1', T + 'determine_name')
